@@ -57,11 +57,16 @@ func (conn *Conn) close() {
 		op.ConnClosed(conn)
 	}
 
-	/* call FidDestroy for all remaining fids */
-	if op, ok := (conn.Srv.ops).(SrvFidOps); ok {
-		for _, fid := range conn.fidpool {
-			op.FidDestroy(fid)
-		}
+	/* call FidDestroy for all remaining fids; requests still executing may be
+	 * dropping theirs from the table meanwhile */
+	conn.Lock()
+	fids := make([]*SrvFid, 0, len(conn.fidpool))
+	for _, fid := range conn.fidpool {
+		fids = append(fids, fid)
+	}
+	conn.Unlock()
+	for _, fid := range fids {
+		fid.destroy()
 	}
 	verifPoint("close.end", conn)
 }
